@@ -254,3 +254,39 @@ def check_query_effects(ctx: CheckContext, p: Program, r: Resolver, ci: ClassInf
             if fl.reads and not any(o.key.startswith(f.qualname + ":") and o.rule == rule + "-SCRATCH" and not o.ok for o in ctx.obligations):
                 ctx.ob(rule + "-SCRATCH", f"{f.qualname}", f.loc, True, f"{fl.reads} scratch read(s), each after an update in the same method")
     return nq
+
+
+def check_every_zone_served(ctx: CheckContext, p: Program, r: Resolver, cone: List[FuncInfo], rule: str = "OWN-ALL"):
+    """The function that hands a zone its utilities and descends into the sub-zones does so for EVERY zone: no return stands before the hand-over and the
+    descent.  ("every zone receives its own independent copy of every utility" - an 'optimisation' that skips empty zones leaves their subtree without.)"""
+    ctx.rule(rule, "in the recursive utility hand-over (stores into <zone>.hot_utilities / cold_utilities + self-call over <zone>.subzones) no return precedes the "
+                   "hand-over or the descent")
+    n = 0
+    for f in cone:
+        if isinstance(f.node, ast.Lambda) or not f.pos_params:
+            continue
+        zp = f.pos_params[0]
+        nodes = body_nodes(f)
+        hand = [c for c in nodes if isinstance(c, ast.Call) and isinstance(c.func, ast.Attribute) and c.func.attr in ("add", "add_many", "extend", "update")
+                and isinstance(c.func.value, ast.Attribute) and c.func.value.attr in ("hot_utilities", "cold_utilities")
+                and isinstance(c.func.value.value, ast.Name) and c.func.value.value.id == zp]
+        hand += [a for a in nodes if isinstance(a, ast.Assign) and any(isinstance(t, ast.Attribute) and t.attr in ("hot_utilities", "cold_utilities", "_hot_utilities", "_cold_utilities")
+                                                                      and isinstance(t.value, ast.Name) and t.value.id == zp for t in a.targets)]
+        descends = [c for c in nodes if isinstance(c, ast.Call) and isinstance(c.func, ast.Name) and c.func.id == f.name]
+        if not hand or not descends:
+            continue
+        last = max(getattr(x, "lineno", 0) for x in hand + descends)
+        for st in f.node.body:
+            if st.lineno >= last:
+                break
+            for x in ast.walk(st):
+                if isinstance(x, ast.Return) and not any(x is y for h in hand + descends for y in ast.walk(h)):
+                    n += 1
+                    cond = ast.unparse(st.test)[:80] if isinstance(st, ast.If) else "unconditionally"
+                    ctx.ob(rule, f"{f.qualname}:early-return", f"{f.module.relpath}:{x.lineno}", False,
+                           f"{f.name} returns ({cond}) before it has handed the utilities to the zone and descended into its sub-zones: that zone and its whole "
+                           f"subtree receive no utility copies")
+        if not any(o.rule == rule and o.key.startswith(f.qualname) for o in ctx.obligations):
+            n += 1
+            ctx.ob(rule, f"{f.qualname}:reaches-every-zone", f.loc, True, "")
+    return n
